@@ -7,6 +7,7 @@ load; each rule-violating edit must make loadSchemaFile raise SchemaError.
 
 import copy
 import io
+import os
 
 from ..gen import family
 
@@ -33,7 +34,7 @@ ASSUMPTIONS = [
     "names that are syntactically fine but unimportable; malformed XML",
 ]
 FLOORS = {"quick": {"positives": 1000, "negatives": 8000,
-                    "negative_pairs": 800},
+                    "negative_pairs": 800, "positives_cyclic_import": 200},
           "thorough": {"positives": 35000, "negatives": 800000,
                        "negative_pairs": 100000}}
 N_MODELS = {"quick": 700, "thorough": 60000}
@@ -611,6 +612,22 @@ def run_model(ctx, model, rng):
             return
     if out[0] != "ok":
         return
+    if CYCLIC and rng.random() < 0.3:
+        # the same document importing component packages whose imports are
+        # cyclic: still rule-satisfying
+        head = rng.choice(CYCLIC)
+        xml2 = family.render_xml(model, head_xml=head)
+        res.evaluations += 1
+        res.count("positives_cyclic_import")
+        o2 = load(xml2)
+        res.sig("cyclic-import|%s" % o2[0])
+        if o2[0] != "ok":
+            res.violate("rule-satisfying-document-refused",
+                        {"model": model, "edits": [], "head": head},
+                        "loads", list(o2),
+                        detail="cyclic component import %s -> %s" % (head,
+                                                                      o2),
+                        vsig="cyc|%s" % msg_head(o2))
     edits = list(EDITS)
     rng.shuffle(edits)
     for e in edits:
@@ -662,10 +679,50 @@ def check_negative(ctx, m2, names, descs, counter):
                     vsig="oth|%s|%s" % ("+".join(names), out[1]))
 
 
+CYCLIC = []
+
+
+def make_cyclic_packages(ctx):
+    """Component packages whose imports form cycles; importing them is
+    legal (a component is read once)."""
+    from ..gen import packages
+    space = packages.PackageSpace(os.path.join(ctx.tmp, "c10pkgs"),
+                                  "c10s%d" % ctx.shard)
+    a = space.new_name("cyc")
+    space.write(a, {
+        "component.xml": "<component><import package='%s' file='extra.xml'/>"
+        "<sectiontype name='cyc-a'/></component>" % a,
+        "extra.xml": "<component><import package='%s'/>"
+        "<sectiontype name='cyc-b'/></component>" % a})
+    b, c = space.new_name("mut1"), space.new_name("mut2")
+    space.write(b, {"component.xml": "<component><import package='%s'/>"
+                    "<sectiontype name='mut-b'/></component>" % c})
+    space.write(c, {"component.xml": "<component><import package='%s'/>"
+                    "<sectiontype name='mut-c'/></component>" % b})
+    s = space.new_name("self")
+    space.write(s, {"component.xml": "<component><import package='%s'/>"
+                    "<sectiontype name='self-s'/></component>" % s})
+    CYCLIC[:] = [
+        "<import package='%s'/>" % a,
+        "<import package='%s' file='extra.xml'/>" % a,
+        "<import package='%s'/><import package='%s'/>" % (b, c),
+        "<import package='%s'/>" % c,
+        "<import package='%s'/><import package='%s'/>" % (s, s),
+    ]
+    return space
+
+
 def run_shard(ctx):
-    import os
     LIB_DIR[0] = os.path.join(ctx.tmp, "c10lib")
     os.makedirs(LIB_DIR[0], exist_ok=True)
+    space = make_cyclic_packages(ctx)
+    try:
+        _run_shard(ctx)
+    finally:
+        space.close()
+
+
+def _run_shard(ctx):
     rng = ctx.rng("edits")
     idx = 0
     for m in family.systematic_models():
